@@ -94,7 +94,7 @@ def small_strategy(maxL):
         for ai in range(draw(st.integers(1, 2))):
             bcs = whitelist(draw, L)
             fmt = draw(st.sampled_from(['one', 'index_first_tab', 'index_first_space', 'barcode_first']))
-            idx_kind = draw(st.sampled_from(['int', 'str', 'shuffled_int', 'zero_based']))
+            idx_kind = draw(st.sampled_from(['int', 'str', 'shuffled_int', 'zero_based', 'wells']))
             wl = []
             perm = draw(st.permutations(list(range(len(bcs)))))
             for i, bc in enumerate(bcs):
@@ -106,10 +106,15 @@ def small_strategy(maxL):
                     idx = perm[i] + 100
                 elif idx_kind == 'zero_based':
                     idx = perm[i]             # one cell has index 0
+                elif idx_kind == 'wells':
+                    # cell names that begin with a base letter (plate wells A1, C7, G12; N701 style index names)
+                    idx = '%s%d' % ('ACGTN'[perm[i] % 5], perm[i] + 1)
                 else:
                     idx = 'w%d_%d' % (ai, perm[i])
                 wl.append([bc, idx])
-            aliases.append({'alias': 'wl%d' % ai, 'wl': wl, 'fmt': fmt, 'gz': draw(st.booleans()), 'newline': draw(st.sampled_from([True, True, False]))})
+            # the alias is the file name without its extension; inner dots are part of it (DamID2_384_CelSeq2.barcodes.tsv)
+            aname = draw(st.sampled_from(['wl%d', 'wl%d', 'wl%d.v2', 'plate%d.barcodes'])) % ai
+            aliases.append({'alias': aname, 'wl': wl, 'fmt': fmt, 'gz': draw(st.booleans()), 'newline': draw(st.sampled_from([True, True, False]))})
         if len(aliases) == 2 and draw(st.integers(0, 2)) == 0:
             # second whitelist with the SAME barcode set but another barcode -> index mapping and another file format
             w0 = aliases[0]['wl']
